@@ -1,13 +1,14 @@
 #!/usr/bin/env python3
 """keep_seeded.py <prop> <changeN> <name> <detected_by csv or -> <history note>: copies a confirmed seeded change into /verif/seeded/<name>/"""
 import json, os, shutil, sys
-prop, ch, name, det, note = sys.argv[1:6]
-src = "/tmp/wt/%s-out/%s" % (prop, ch)
+tag, ch, name, det, note = sys.argv[1:6]
+prop = tag[:3]
+src = "/tmp/wt/%s-out/%s" % (tag, ch)
 dst = "/verif/seeded/%s" % name
 conf = None
 for l in open("/tmp/wt/confirm.log"):
     r = json.loads(l)
-    if r["property"] == prop and r["change"] == ch:
+    if r.get("tag", r["property"]) == tag and r["change"] == ch:
         conf = r
 if not conf or not conf["confirmed"]:
     raise SystemExit("not confirmed: %s %s" % (prop, ch))
